@@ -175,11 +175,12 @@ struct Ctx {
     void check(bool ok, const char* m, const std::string& witness = "") { ++checks; if (!ok) fail(m, witness); }
 
     // result digest for the cross-configuration monitor (C06).  Sign and payload of a NaN produced by arithmetic are not specified (x86 keeps
-    // the payload of whichever operand the compiler happened to put first), so every NaN is canonicalised before hashing; everything else,
-    // including the sign of zero, is hashed bit for bit.
+    // the payload of whichever operand the compiler happened to put first), so every NaN is canonicalised before hashing.  The sign of a zero that results from a
+    // sum of products depends on the order of the terms (complex products under clang vs gcc), so zeros are canonicalised too: the sign of zero is
+    // judged by each case's own oracle (bitwise where the operation is exact), not by the cross-configuration digest.
     template <class T> typename std::enable_if<!std::is_floating_point<T>::value>::type digest_add(const T* p, size_t n) { digest = hash_bytes(p, n * sizeof(T), digest); }
     template <class T> typename std::enable_if<std::is_floating_point<T>::value>::type digest_add(const T* p, size_t n) {
-        for (size_t i = 0; i < n; ++i) { T v = p[i]; if (v != v) v = std::numeric_limits<T>::quiet_NaN(); digest = hash_bytes(&v, sizeof(T), digest); }
+        for (size_t i = 0; i < n; ++i) { T v = p[i]; if (v != v) v = std::numeric_limits<T>::quiet_NaN(); if (v == T(0)) v = T(0); digest = hash_bytes(&v, sizeof(T), digest); }
     }
     template <class T> void digest_add(const std::complex<T>* p, size_t n) { digest_add(reinterpret_cast<const T*>(p), 2 * n); }
 
